@@ -144,7 +144,9 @@ def execute(env, unit, np, layout, cases, sync=False, timeout=WATCHDOG):
     res = proc.run(cmd, timeout=timeout)
     for attempt in range(4):
         # libsimgrid.so being relinked by a concurrent build (other checks share the build tree): not a result
-        if not (res.rc == 127 or INFRA_RE.search(res.err or "") or INFRA_RE.search(res.out or "")):
+        # ... or the run was killed from outside (SIGKILL/SIGTERM: another agent cleaning up "its" smpirun processes)
+        if res.timed_out or not (res.rc in (127, -9, -15, 137, 143) or INFRA_RE.search(res.err or "") or
+                                 INFRA_RE.search(res.out or "") or KILLED_RE.search(res.out or "")):
             break
         time.sleep(15 * (attempt + 1))
         build.ensure("hooks")
@@ -160,6 +162,7 @@ def execute(env, unit, np, layout, cases, sync=False, timeout=WATCHDOG):
 
 INFRA_RE = re.compile(r"error while loading shared libraries|cannot open shared object file|No such file or directory.*smpimain|"
                       r"smpimain: not found|Text file busy")
+KILLED_RE = re.compile(r"Execution failed with code (137|143)\b")
 BAD_RE = re.compile(r"^BAD (\d+) rank=(\d+) kind=([\w-]+)(.*)$")
 SIG_NAMES = {11: "SIGSEGV", 8: "SIGFPE", 6: "abort", 7: "SIGBUS"}
 HEAP_RE = re.compile(r"corrupted|double free|invalid next size|invalid pointer|munmap_chunk|malloc\(\):|free\(\):|"
